@@ -55,7 +55,13 @@ def check_operator_table(model, rep, rule, cls_q, subject_ok, same_type_test, na
         if lhs == "0":
             lhs, rhs, got = rhs, lhs, FLIP.get(got, got)
         if rhs != "0" or not subject_ok(lhs):
-            rep.blind(rule, con, where(f, cmp_rets[0].ast), f"comparison `{src(cmp_rets[0].ast.value)}` is not `<three-way result> op 0`", stmt="table")
+            calls = {src(c.func) for c in ast.walk(f.node) if isinstance(c, ast.Call)}
+            if not any(x.endswith(("fullcompare", "_cmp")) for x in calls):
+                # the operator is not derived from the shared three-way comparison at all: coherence with the other operators is lost by construction
+                rep.bad(rule, con, where(f, cmp_rets[0].ast), f"{name} returns `{src(cmp_rets[0].ast.value)[:70]}`, which is not derived from the shared three-way comparison: "
+                        "it can disagree with the ordering operators and with __hash__ (e.g. label boundaries or case folding handled differently)", stmt="table")
+            else:
+                rep.blind(rule, con, where(f, cmp_rets[0].ast), f"comparison `{src(cmp_rets[0].ast.value)}` is not `<three-way result> op 0`", stmt="table")
             continue
         rep.check(got == op, rule, con, where(f, cmp_rets[0].ast), f"returns `{lhs} {got} 0`", f"{name} returns `{lhs} {got} 0` but must use `{op}`", stmt="table")
         for r in const_rets:
@@ -109,6 +115,8 @@ def run(model, rep, tier):
     rep.check(b1 == "self.labels[l1]" and b2 == "other.labels[l2]", "R-06.2", fc.qualname, where(fc, defs["label1"][0]), "label1 from self, label2 from other, own indices",
               f"labels taken from {b1} / {b2}", stmt="operands")
     norm = n1
+    rep.check(norm == "lower", "R-06.2", fc.qualname, where(fc, defs["label1"][0]), "the fold is to lower case, the RFC 4034 section 6.1 canonical form",
+              f"labels are folded with .{norm}(): the order is total but not the canonical order (octets 0x5b-0x60 sort on the other side of the letters)", stmt="fold-is-lower")
     h = model.func("dns.name.Name.__hash__")
     fors = [x for x in ast.walk(h.node) if isinstance(x, ast.For)]
     okk = len(fors) == 2 and src(fors[0].iter) == "self.labels" and src(fors[1].iter) == f"{src(fors[0].target)}.{norm}()"
@@ -225,6 +233,8 @@ def run(model, rep, tier):
 
 
 WITNESSES = [
+    {"id": "c06-fullcompare-folds-upper", "rule": "R-06.2", "file": "dns/name.py", "expect": "fires",
+     "old": "            label1 = self.labels[l1].lower()\n            label2 = other.labels[l2].lower()", "new": "            label1 = self.labels[l1].upper()\n            label2 = other.labels[l2].upper()"},
     {"id": "c06-le-uses-lt", "rule": "R-06.1", "file": "dns/name.py", "expect": "fires",
      "old": "            return self.fullcompare(other)[1] <= 0", "new": "            return self.fullcompare(other)[1] < 0"},
     {"id": "c06-gt-flipped-twin", "rule": "R-06.1", "file": "dns/name.py", "expect": "silent",
